@@ -830,12 +830,25 @@ func NilNamespaceSelectorMatchesByKey(p *core.Program, r *core.Report, rule stri
 		ginfo := g.Pkg.TypesInfo
 		w := facts.NewWalker(ginfo)
 		under := func(f facts.Formula) bool {
+			nsNil := false
 			for _, a := range facts.Atoms(f) {
 				sa := facts.StripVersions(a)
 				if !strings.HasPrefix(sa, "nil:") || !facts.Entails(f, facts.Atom(a)) {
 					continue
 				}
-				if strings.HasSuffix(sa, ".NamespaceSelector") || (sel != nil && a == "nil:"+w.PathOfVar(sel)) {
+				if sel != nil && a == "nil:"+w.PathOfVar(sel) {
+					return true
+				}
+				if strings.HasSuffix(sa, ".NamespaceSelector") {
+					nsNil = true
+				}
+			}
+			if !nsNil {
+				return false
+			}
+			// ... of a selector peer (the podSelector is set), not in the ipBlock branch where both selectors are nil
+			for _, a := range facts.Atoms(f) {
+				if sa := facts.StripVersions(a); strings.HasPrefix(sa, "nil:") && strings.HasSuffix(sa, ".PodSelector") && facts.Entails(f, facts.MkNot(facts.Atom(a))) {
 					return true
 				}
 			}
